@@ -7,7 +7,7 @@ TITLE = 'The signing check holds exactly when the schema lets that key sign that
 LEAN_TARGETS = ['NdnProofs.Props.C12']
 THEOREMS = [
     'Ndn.C12.check_iff', 'Ndn.C12.check_true_sound', 'Ndn.C12.check_total', 'Ndn.C12.check_key_must_match', 'Ndn.C12.check_key_must_match_alone',
-    'Ndn.C12.check_ignores_implicit_digest',
+    'Ndn.C12.check_ignores_implicit_digest', 'Ndn.C12.check_iff_compiled',
 ]
 PARTIAL = {}
 TRUSTED = [
